@@ -135,7 +135,8 @@ type Config struct {
 
 // Exec is one symbolic execution of a harness instance.
 type Exec struct {
-	enum *Solver // solver used to enumerate the feasible values of a Fork argument
+	errAlias map[string]int // shared objects of the os / io/fs / oserror sentinel errors
+	enum     *Solver        // solver used to enumerate the feasible values of a Fork argument
 	// NGo counts executed go statements (a run with goroutines is schedule-dependent natively)
 	NGo      int
 	started  time.Time
